@@ -38,7 +38,8 @@ Inductive piece :=
 | PLit (s : list Z)                 (* text of the Go / go-cty source *)
 | PStr (o : origin) (s : list Z)    (* a string printed with %q or %s *)
 | PInt (n : Z)                      (* %d of a count or position *)
-| PNumber (o : origin) (n : num).   (* the digits of a number value *)
+| PNumber (o : origin) (n : num)    (* the digits of a number value *)
+| PRaw (o : origin) (s : list Z).   (* a string written as it is (buf.WriteString) *)
 
 Definition text := list piece.
 
@@ -54,7 +55,8 @@ Definition piece_dynamic (p : piece) : bool :=
   match p with PLit _ | PInt _ => false | _ => true end.
 Definition piece_from_value (p : piece) : bool :=
   match p with
-  | PStr OGot _ | PStr (OVal _) _ | PNumber OGot _ | PNumber (OVal _) _ => true
+  | PStr OGot _ | PStr (OVal _) _ | PNumber OGot _ | PNumber (OVal _) _
+  | PRaw OGot _ | PRaw (OVal _) _ => true
   | _ => false
   end.
 
@@ -317,6 +319,7 @@ Fixpoint flatten (t : text) : option (list Z) :=
         | PStr _ s => quote_q s
         | PInt n => Some (int_text n)
         | PNumber _ n => num_g10 n
+        | PRaw _ s => Some s
         end in
       match here, flatten r with
       | Some a, Some b => Some (a ++ b)
@@ -449,3 +452,49 @@ Definition frame_vals (f : frame) : list val :=
 Definition secret_of (c : ctx) (s : list Z) : bool :=
   existsb (fun f => existsb (occurs_in s) (frame_vals f)) c &&
   negb (existsb (fun f => existsb (exposed_in s) (frame_vals f)) c).
+
+(* does the expression text mention the string s (as a literal, a name or a key)? *)
+Definition step_mentions (s : list Z) (st : step) : bool :=
+  match st with SAttr n => str_eqb s n | SIndex k => occurs_in s k end.
+Fixpoint mentions (fuel : nat) (s : list Z) (e : expr) {struct fuel} : bool :=
+  match fuel with
+  | O => true
+  | S f =>
+    let go := mentions f s in
+    match e with
+    | ELit v => occurs_in s v
+    | EScopeTrav root steps => str_eqb s root || existsb (step_mentions s) steps
+    | ERelTrav src steps => go src || existsb (step_mentions s) steps
+    | ECall name args _ => str_eqb s name || existsb go args
+    | ECond c t f' => go c || go t || go f'
+    | EIndex a b => go a || go b
+    | ETuple es => existsb go es
+    | EObj items => existsb (fun it => go (fst it) || go (snd it)) items
+    | EObjKey w _ => go w
+    | EFor kv vv coll key vl cond _ =>
+        str_eqb s kv || str_eqb s vv || go coll || go vl ||
+        match key with Some k => go k | None => false end ||
+        match cond with Some k => go k | None => false end
+    | ESplat a b => go a || go b
+    | EAnon => false
+    | EBin _ a b => go a || go b
+    | EUn _ a => go a
+    | ETmpl ps => existsb go ps
+    | EJoin a | EWrap a | EParen a => go a
+    end
+  end.
+Definition expr_mentions (s : list Z) (e : expr) : bool := mentions (S (expr_size e)) s e.
+
+(* ---- the full statements (refuted in LeakProofs.v) --------------------------------------------- *)
+(* "no diagnostic of an evaluation formats a string / names an attribute that is a
+   secret of the scope and is not written in the expression" *)
+Definition diags_leak_free_str : Prop :=
+  forall c e s, secret_of c s = true -> expr_mentions s e = false ->
+  forall d m, In d (snd (value c e)) -> ~ In (FStr s m) (d_frags d).
+Definition diags_leak_free_ty : Prop :=
+  forall c e s, secret_of c s = true -> expr_mentions s e = false ->
+  forall d t, In d (snd (value c e)) -> In (FTy t) (d_frags d) -> ~ In s (attr_names t).
+Definition diags_leak_free_conv : Prop :=
+  forall c e s, secret_of c s = true -> expr_mentions s e = false ->
+  forall d h w, In d (snd (value c e)) -> In (FConv (CETypeMismatch h w)) (d_frags d) ->
+  ~ In (PStr OGot s) (mismatch_message (S (ty_size h + ty_size w)) h w).
